@@ -273,3 +273,28 @@ def show(t, depth=0):
     if k == "sub":
         return "%s[%s]" % (show(t[1]), show(t[2]))
     return "%s(%s)" % (k, ", ".join(show(x) if isinstance(x, tuple) else repr(x) for x in t[1:]))
+
+
+LID_KINDS = {"elem": 2, "idx": 1, "key": 2, "val": 2, "lv": 2, "rangeelem": 2}
+
+
+def canon_lids(t):
+    """Rename loop ids by order of first appearance so that terms from different loops/methods compare."""
+    order = {}
+
+    def go(x):
+        if not isinstance(x, tuple):
+            return x
+        if x and isinstance(x[0], str):
+            k = x[0]
+            if k in LID_KINDS and len(x) > LID_KINDS[k] and isinstance(x[LID_KINDS[k]], int):
+                i = LID_KINDS[k]
+                inner = tuple(go(y) for y in x[:i])
+                lid = order.setdefault(x[i], len(order))
+                return inner + (lid,) + tuple(go(y) for y in x[i + 1:])
+            if k == "comp":
+                body = tuple(go(y) for y in x[:4])
+                return body + (tuple(order.setdefault(l, len(order)) for l in x[4]),)
+        return tuple(go(y) for y in x)
+    # generators first so that ids are assigned in binding order
+    return go(t)
